@@ -84,7 +84,7 @@ class Sim:
         k = r.choice(choices)
         mk = self.mark()
         if k == "bind":
-            a = (("bind_simple", "cn=" + mk, r.choice(["pw", "pw", "", None]), H._ctl(r, 0.25)) if r.random() < 0.5 else
+            a = (("bind_simple", r.choice(["cn=" + mk, "cn=" + mk, "", None]), r.choice(["pw", "pw", mk, "", None]), H._ctl(r, 0.25)) if r.random() < 0.5 else
                  ("bind_sasl", r.choice(["GSSAPI", "EXTERNAL", ""]), "cn=" + mk, r.choice([mk.encode(), mk.encode(), b"", None]), H._ctl(r, 0.25)))
         elif k == "search":
             a = ("search", "dc=" + mk, r.choice([0, 1, 2]), r.choice([0, 1, 2, 3]), r.choice([0, 10]), r.choice([0, 30]), r.random() < 0.3,
@@ -313,6 +313,9 @@ def run_sim(seed_parts, steps_n, want_term):
 
     r = rng_for("c11sim", *seed_parts)
     sim = Sim(r)
+    if want_term == "unbind" and r.random() < 0.08:
+        sim.o("unbind-as-first-call")
+        sim.api("c", ("unbind",))  # a client that connects and leaves at once
     for step in range(steps_n):
         if sim.vio or sim.terminated:
             break
@@ -349,6 +352,12 @@ def run_sim(seed_parts, steps_n, want_term):
                 sim.move("s", 10**9)
                 sim.deliver("c", len(sim.s2c))
             sim.check_order(final=False)
+            # all bytes delivered: the termination has reached the peer, both ends are CLOSED
+            cs, ss = sim.c.sess.state.name, sim.s.sess.state.name
+            if not sim.vio and (cs, ss) != ("CLOSED", "CLOSED"):
+                sim.vio.append((f"states-disagree-after-termination:{sim.terminated}:{cs}-vs-{ss}", f"after the {sim.terminated} and delivery of all bytes the client is {cs}, the server {ss}"))
+            else:
+                sim.o("termination-reached-peer")
         else:
             sim.quiesce()
     if sim.maxdepth >= 5:
